@@ -13,10 +13,12 @@ type Options struct {
 	RichLexer  bool // modes, fragments, nullable rules, non-greedy
 	RichParser bool // random grammar families with @error placements
 	RealLexable bool // tokens restricted so that a sentence can be rendered as text and re-lexed (C09 configuration b)
+	Family string // "" = seeded choice; "pending-errors" (parser), "nullable-mode-cycle" (lexer idiom added to a rich lexer)
 }
 
 type gen struct {
 	wide bool
+	family string
 	r    *core.Rand
 	s    *Spec
 	toks []string // names of tokens usable in the parser section
@@ -32,7 +34,7 @@ func (g *gen) chance(p int) bool { return g.r.Intn(100) < p }
 
 // Generate builds one specification from the seed.
 func Generate(seed uint64, opt Options) *Spec {
-	g := &gen{r: core.NewRand(seed), s: &Spec{}, wide: opt.Wide}
+	g := &gen{r: core.NewRand(seed), s: &Spec{}, wide: opt.Wide, family: opt.Family}
 	g.s.Pkg = []string{"main", "gram", "zparser", "main"}[g.pick(4)]
 	g.s.OnBounds = g.chance(40)
 	g.s.TwoFiles = g.chance(40)
@@ -61,6 +63,9 @@ func (g *gen) simpleLexer(lexable bool) {
 	}
 	if g.wide {
 		n = 40 + g.pick(len(litPool)-40)
+	}
+	if g.family != "" && n < 8 {
+		n = 8 // the directed families name up to seven distinct tokens
 	}
 	perm := g.perm(len(litPool))
 	def := &LexMode{}
@@ -384,6 +389,30 @@ func (g *gen) richLexer() {
 	if g.chance(70) && !loopMode[0] {
 		def.Rules = append(def.Rules, &LexRule{Kind: RFrag, Expr: &LexExpr{Op: LClass, Ranges: [][2]rune{{' ', ' '}, {'\n', '\n'}, {'\t', '\t'}}, Card: CPlus}, Actions: []LexAction{{Kind: ADiscard}}})
 	}
+	if g.family == "nullable-mode-cycle" {
+		// Optional opener and optional terminator: nullable rules whose only
+		// effect is a mode switch, leading into each other. Where neither
+		// matches a character the lexer must still move on (or report the
+		// error), not alternate between the modes for ever.
+		name := "Blk"
+		opener := &LexRule{Kind: RTok, Name: newTok(), Expr: &LexExpr{Op: LLit, Lit: []string{"begin", "[", "do"}[g.pick(3)], Card: COpt}, Actions: []LexAction{{Kind: APush, Arg: name}}}
+		var closer *LexRule
+		switch g.pick(3) {
+		case 0:
+			closer = &LexRule{Kind: RTok, Name: newTok(), Expr: &LexExpr{Op: LLit, Lit: ";", Card: COpt}, Actions: []LexAction{{Kind: APop}}}
+		case 1:
+			closer = &LexRule{Kind: RTok, Name: newTok(), Expr: &LexExpr{Op: LLit, Lit: "end", Card: COpt}, Actions: []LexAction{{Kind: APush, Arg: ""}}}
+		default:
+			closer = &LexRule{Kind: RFrag, Expr: &LexExpr{Op: LClass, Ranges: [][2]rune{{';', ';'}}, Card: CStar}, Actions: []LexAction{{Kind: APop}}}
+		}
+		word := &LexRule{Kind: RTok, Name: newTok(), Expr: &LexExpr{Op: LClass, Ranges: [][2]rune{{'a', 'c'}}, Card: CPlus}}
+		def.Rules = append(def.Rules, opener)
+		modes = append(modes, &LexMode{Name: name, Rules: []*LexRule{word, closer}})
+		allToks = append(allToks, opener.Name, word.Name)
+		if closer.Kind == RTok {
+			allToks = append(allToks, closer.Name)
+		}
+	}
 	s.Modes = modes
 	s.LexFamily = "rich"
 	g.toks = allToks
@@ -422,13 +451,16 @@ func errT() *Term            { return &Term{Kind: KErr} }
 func (g *gen) richParser() {
 	fams := []func(){g.famStatements, g.famLLish, g.famExpr, g.famNullableChain, g.famRandomSmall, g.famLists, g.famLLish, g.famStatements, g.famErrorInRepetition, g.famIndirectLeftRecursion}
 	if len(g.toks) >= 36 {
-		fams = []func(){g.famWide}
+		fams = []func(){g.famWide, g.famChains}
+	}
+	if g.family == "pending-errors" {
+		fams = []func(){g.famPendingErrors}
 	}
 	fams[g.pick(len(fams))]()
 	for _, r := range g.s.Rules {
 		r.Ret = g.pick(7)
 	}
-	if g.chance(70) {
+	if g.chance(70) && g.family != "pending-errors" {
 		g.sprinkleErrors()
 	}
 	g.s.NormalizeLists()
@@ -895,6 +927,58 @@ func (g *gen) famWide() {
 	tail := &Rule{Name: "tail", Prods: []*Prod{{Terms: []*Term{g.tokN(n + 1)}}, {Terms: []*Term{g.tokN(n), g.tokN(n + 1)}}}}
 	top := &Rule{Name: "top", Prods: []*Prod{{Terms: []*Term{rrefc("item", []Card{Star, Plus}[g.pick(2)])}}}}
 	s.Rules = []*Rule{top, item, tail}
+}
+
+// famPendingErrors: a right-recursive chain whose every link holds an @error
+// that is not reduced before the chain ends, inside a construct with an @error
+// alternative of its own. A syntax error at the end of the chain makes recovery
+// pop several Error symbols that no action has seen yet.
+func (g *gen) famPendingErrors() {
+	s := g.s
+	s.Family = "pending-errors"
+	x, z, k, l, n := g.tokN(0), g.tokN(1), g.tokN(2), g.tokN(3), g.tokN(4)
+	link := &Prod{Terms: []*Term{k}}
+	if g.chance(30) {
+		link.Terms = append(link.Terms, g.tokN(5))
+	}
+	link.Terms = append(link.Terms, errT(), l, rref("c"))
+	c := &Rule{Name: "c", Prods: []*Prod{link, {Terms: []*Term{n}}}}
+	if g.chance(30) {
+		c.Prods = append(c.Prods, &Prod{Terms: []*Term{k, l, rref("c")}})
+	}
+	sync := z
+	if g.chance(25) {
+		sync = g.tokN(6)
+	}
+	outer := &Rule{Name: "outer", Prods: []*Prod{{Terms: []*Term{x, rref("c"), z}}, {Terms: []*Term{x, errT(), sync}}}}
+	top := &Rule{Name: "top", Prods: []*Prod{{Terms: []*Term{rrefc("outer", []Card{Star, Plus}[g.pick(2)])}}}}
+	s.Rules = []*Rule{top, outer, c}
+}
+
+// famChains: 60 to 140 alternatives of three terminals each, under repetition.
+// The automaton has several hundred states, most of them with one or two
+// actions on terminals with one- and two-digit numbers: many small, distinct
+// table rows over three-digit state numbers.
+func (g *gen) famChains() {
+	s := g.s
+	s.Family = "chains"
+	n := len(g.toks) - 1
+	np := 60 + g.pick(81)
+	item := &Rule{Name: "item"}
+	seen := map[[3]int]bool{}
+	for len(item.Prods) < np {
+		k := [3]int{g.pick(n), g.pick(n), g.pick(n)}
+		if seen[k] {
+			continue
+		}
+		seen[k] = true
+		item.Prods = append(item.Prods, &Prod{Terms: []*Term{g.tokN(k[0]), g.tokN(k[1]), g.tokN(k[2])}})
+	}
+	if g.chance(50) {
+		item.Prods = append(item.Prods, &Prod{Terms: []*Term{errT(), g.tokN(n)}})
+	}
+	top := &Rule{Name: "top", Prods: []*Prod{{Terms: []*Term{rrefc("item", []Card{Star, Plus}[g.pick(2)])}}}}
+	s.Rules = []*Rule{top, item}
 }
 
 // famIndirectLeftRecursion: a left-recursive cycle through two rules, used
